@@ -188,7 +188,7 @@ def main():
             "guard": "verif-hooks",
             "enable": "cargo feature `verif-hooks` of crate tarpc (harness/Cargo.toml depends on /repo/tarpc with features full + verif-hooks)",
             "baseline_off_cmd": "cd /repo && cargo test --workspace --no-fail-fast --offline",
-            "source_commits": ["629aaa8"],
+            "source_commits": ["629aaa8", "f2ec1a4"],
             "add_only": True,
         },
         "engines": [{
